@@ -881,7 +881,8 @@ func init() {
 			adv := v.nodes[1].w
 			var prev []*pb.Gossiper // genuine entries signed for the previous round's item
 			forms := []string{"right-digest-garbage-sig", "right-digest-adversary-sig", "no-digest-adversary-sig", "digest3-garbage-sig", "digest31-no-sig",
-				"digest33-adversary-sig", "digest64-garbage-sig", "zero-digest-no-sig", "genuine-entries-of-previous-item"}
+				"digest33-adversary-sig", "digest64-garbage-sig", "zero-digest-no-sig", "genuine-entries-of-previous-item",
+				"behind-20-failing-entries"}
 			names := [][]int{{2}, {3}, {2, 3}}
 			failed := false
 			for fi := 0; fi < len(forms) && !failed; fi++ {
@@ -914,6 +915,17 @@ func init() {
 							dd := sha256.Sum256(gossip.VerifGossiperMessage(a, v.item))
 							e.Digest, e.Signature = dd[:], fill(c, 64, false)
 						case "right-digest-adversary-sig":
+							e.Digest, e.Signature = d[:], sg
+						case "behind-20-failing-entries":
+							// the forged entry sits at the end of a long list of well-formed entries that fail as
+							// well (throw-away names, right digest length): its position must not matter
+							if len(gs) == 0 {
+								for k := 0; k < 20; k++ {
+									pa := fmt.Sprintf("throwaway-%d", k)
+									pd := sha256.Sum256(gossip.VerifGossiperMessage(pa, v.item))
+									gs = append(gs, &pb.Gossiper{Address: pa, Digest: pd[:], Signature: fill(c, 64, false)})
+								}
+							}
 							e.Digest, e.Signature = d[:], sg
 						case "no-digest-adversary-sig":
 							e.Signature = sg
@@ -1322,6 +1334,71 @@ func init() {
 							map[string]interface{}{"section": "gossip", "scenario": "merge-child-first"})
 					}
 				}
+			}
+			v.close()
+		}
+		// ---- many orphans that miss only ONE of two different parents: the node asks its peers for both (the one it
+		// holds is answered with "already exists"), and keeps doing so: the 260th such orphan gets its missing
+		// parent fetched like the first (the node's own limit on parallel fetches is 250)
+		{
+			v := newVnet(c, 2, [][]int{{1}, {0}}, []bool{true, true}, false)
+			v.silent = true
+			v.serveFetch = true
+			gen := genesisOf(v.nodes[0].ab)
+			rich, other := v.w.wallets[0], v.w.wallets[1]
+			sealer := v.nodes[0].w
+			rounds := 262
+			failedAt, reason := -1, ""
+			// the parent both nodes hold: an ordinary vertex (the genesis vertex would be refused as self-sealed
+			// before the ledger even looks whether it has it)
+			kt, _ := transaction.New("k", spice.Melange{}, []byte("known"), other.Address(), recSigner{rich})
+			known, _ := accountant.NewVertex(kt, gen.Hash, gen.Hash, 1, recSigner{sealer})
+			for _, nd := range v.nodes {
+				kc := known
+				if err := nd.ab.AddLeaf(context.Background(), &kc); err != nil {
+					failedAt, reason = 0, "set-up: the known parent was refused: "+err.Error()
+				}
+			}
+			for i := 0; i < rounds && failedAt < 0; i++ {
+				pt, _ := transaction.New("p", spice.Melange{}, []byte{byte(i), byte(i >> 8), 'p'}, other.Address(), recSigner{rich})
+				pv, e1 := accountant.NewVertex(pt, gen.Hash, gen.Hash, 1, recSigner{sealer})
+				ct, _ := transaction.New("c", spice.Melange{}, []byte{byte(i), byte(i >> 8), 'c'}, other.Address(), recSigner{rich})
+				cv, e2 := accountant.NewVertex(ct, known.Hash, pv.Hash, 2, recSigner{sealer})
+				if e1 != nil || e2 != nil {
+					break
+				}
+				pc := pv
+				if err := v.nodes[0].ab.AddLeaf(context.Background(), &pc); err != nil {
+					break
+				}
+				v.gsp[1].Server().GossipVrx(context.Background(), &pb.VrxMsgGossip{Vertex: gossip.VerifMapVertexToProto(&cv)})
+				deadline := time.Now().Add(3 * time.Second)
+				got := false
+				for time.Now().Before(deadline) {
+					if _, err := v.nodes[1].ab.ReadVertex(context.Background(), pv.Hash); err == nil {
+						got = true
+						break
+					}
+					time.Sleep(2 * time.Millisecond)
+				}
+				if !got {
+					failedAt, reason = i, "its missing parent was not fetched from the peer within 3 s"
+					break
+				}
+				// the parked orphan is admitted by a retry
+				for k := 0; k < 5; k++ {
+					v.nodes[1].ab.VerifRetryParked(context.Background())
+				}
+				if _, err := v.nodes[1].ab.ReadVertex(context.Background(), cv.Hash); err != nil {
+					failedAt, reason = i, "the orphan was not admitted by the retries after its parent had arrived"
+				}
+			}
+			c.Rep.Evals++
+			c.Count("half-known-orphans")
+			c.Distinct("half-known-orphans")
+			if failedAt >= 0 {
+				c.Violate("C13", "parent-fetch-stops-after-many-half-known-orphans", fmt.Sprintf("orphan number %d with one known and one unknown parent: %s", failedAt+1, reason),
+					map[string]interface{}{"section": "gossip", "scenario": "half-known-orphans", "orphan": failedAt + 1})
 			}
 			v.close()
 		}
